@@ -16,7 +16,7 @@ K_BOUND = 16.0
 K_SUM = 64.0   # addition theorem: |sum_m |Y|^2 /((2l+1)/4pi) - 1| <= K_SUM (ell+1) eps ; observed ~3e-14 at ell=1024 i.e. ~0.15
 
 
-def gap_Y(run, cfgs, rotors, n_samples):
+def gap_Y(run, cfgs, rotors, n_samples, big_m=False):
     """cfgs: [(ell_max, mp_max, [spins])]"""
     import spherical
     import quaternionic
@@ -64,6 +64,8 @@ def gap_Y(run, cfgs, rotors, n_samples):
                     if ell < abs(s) or ell > L:
                         continue
                     ms = {-ell, ell, 0, rng.randint(-ell, ell)} if ell > 2 else set(range(-ell, ell + 1))
+                    if big_m and ell > 8:
+                        ms = {int(0.6 * ell), -int(0.8 * ell), ell - 1, rng.randint(ell // 2, ell)}
                     for m in list(ms)[:max(1, n_samples)]:
                         ex = oracle.sYlm_exact(s, ell, m, R)
                         got = Y[ell * (ell + 1) + m]
@@ -97,6 +99,12 @@ def check(run):
     gap_Y(run, [(48, 6, [-6, -3, -2, 0, 1, 5])], rotors[::2], 2)
     gap_Y(run, [(12, 3, [-3, 2])], subnormal_band_rotors(), 2)
     big = 1024 if quick else 1400
+    # colatitude sweep at the largest ell: addition theorem on every ell (cheap) + oracle at large |m|; deeper when a proof
+    # obligation or the bitwise correspondence is broken (failing-input search)
+    deep = bool(run.broken)
+    step = 5 if (deep or not quick) else 15
+    sweep = [(f"colat-{d}", (math.cos(math.radians(d) / 2), 0.0, math.sin(math.radians(d) / 2), 0.0)) for d in range(step, 180, step)]
+    gap_Y(run, [(big, 2, [0, -2] if deep else [-2])], sweep, 3 if deep else 1, big_m=True)
     gap_Y(run, [(big, 2, [-2, 0] if quick else [-2, -1, 0, 2])], (pole_focus[:5] + gen[:2]) if quick else (pole_focus + gen[:6]), 1 if quick else 2)
     run.assumptions += ["rounding bound and finiteness at ell>1000 are checked by oracle sampling (no theorem); exact zeros below |s| are proved (Routes.sYlm_low_exact_zero)",
                         "addition theorem is a consequence of unitarity of D, which is not proved (DESIGN.md §5)"]
